@@ -733,6 +733,8 @@ var rxPaths = []string{
 	rxPath("", "oc", []string{"a"}, nil),
 	rxPath("t2", "", []string{"a"}, nil),
 	rxPath("", "", []string{"a"}, []string{"z"}),
+	rxPath("", "", []string{"value", "x"}, nil),
+	rxPath("", "", []string{"timestamp"}, nil),
 }
 
 var rxJSONValid = []string{"{}", "{\"a\":1}", "1", "\"x\"", "[1]", "null", "true"}
@@ -1140,7 +1142,9 @@ func (c *rxComp) Exhaustive(tier string) [][]string {
 
 // ---- random larger messages ----
 
-var rxNames = []string{"a", "b", "c", "d", "meta", "*", "", "é", "x/y", "a b", "q\"t", "b\\s", "sync", "日本"}
+// "value" and "timestamp" are the element names the CLI's display itself files a timestamped value under
+// (seeded change c12_seed9: a display map reused across streamed updates keeps them as scalars)
+var rxNames = []string{"a", "b", "c", "d", "meta", "*", "", "é", "x/y", "a b", "q\"t", "b\\s", "sync", "日本", "value", "timestamp", "value", "timestamp"}
 
 func rxRandName(r *rand.Rand) string {
 	if r.Intn(3) == 0 {
